@@ -127,6 +127,26 @@ func newState() state {
 	return state{Viol: map[string]*Violation{}, Counters: map[string]int64{}, Sets: map[string]map[string]bool{}, DoneThru: -1}
 }
 
+// LoadReplay reads the "replay" member of a replay artefact written by Finish into v.
+func (r *Run) LoadReplay(v any) {
+	b, err := os.ReadFile(r.ReplayIn)
+	if err != nil {
+		Fatalf("reading replay: %v", err)
+	}
+	var f struct {
+		Signature string          `json:"signature"`
+		What      string          `json:"what"`
+		Replay    json.RawMessage `json:"replay"`
+	}
+	if err := json.Unmarshal(b, &f); err != nil {
+		Fatalf("parsing replay: %v", err)
+	}
+	fmt.Printf("replaying %s\n  recorded: %s\n", f.Signature, f.What)
+	if err := json.Unmarshal(f.Replay, v); err != nil {
+		Fatalf("parsing replay body: %v", err)
+	}
+}
+
 // Fatalf reports a harness error (exit 2): never a verdict.
 func Fatalf(format string, a ...any) {
 	fmt.Fprintf(os.Stderr, "HARNESS-ERROR: "+format+"\n", a...)
